@@ -299,7 +299,18 @@ def _(eng, m, g, a):
     s.p[:] = mk_str_from_chars(cs[:-1]).p; return some(cs[-1])
 @model(r"^(?:std::string::)?String::truncate$")
 def _(eng, m, g, a):
-    s = deref(a[0]); t = cstr(s, "truncate").encode()[:a[1].v].decode(); s.p[:] = [t] if t else []; return UNIT
+    s = deref(a[0])
+    if s.concrete() is not None:
+        b = s.concrete().encode()
+        if a[1].v >= len(b): return UNIT
+        try: t = b[:a[1].v].decode()
+        except UnicodeDecodeError: raise Panic("truncate: not a char boundary")
+        s.p[:] = [t] if t else []; return UNIT
+    cs = str_chars(s); off = 0; i = 0                    # symbolic characters: walk the utf-8 widths like insert_str does
+    while i < len(cs) and off < a[1].v: off += len(utf8_bytes(eng, cs[i])); i += 1
+    if off < a[1].v: return UNIT                         # new_len > len: no effect
+    if off != a[1].v: raise Panic("truncate: not a char boundary")
+    s.p[:] = mk_str_from_chars(cs[:i]).p; return UNIT
 @model(r"^(?:std::string::)?String::insert_str$|^(?:std::string::)?String::insert$")
 def _(eng, m, g, a):
     s = deref(a[0]); cs = str_chars(s); ins = [a[2]] if isinstance(a[2], Sc) else str_chars(a[2])
@@ -757,10 +768,11 @@ def _(eng, m, g, a):
     it = deref(a[0]).items; i, j = a[1].v, a[2].v
     if i >= len(it) or j >= len(it): raise Panic("index out of bounds")
     it[i], it[j] = it[j], it[i]; return UNIT
-@model(r"^(?:core|std)::slice::<impl \[.*\]>::(windows|chunks)$")
+@model(r"^(?:core|std)::slice::<impl \[.*\]>::(windows|chunks|chunks_exact)$")
 def _(eng, m, g, a):
     it = deref(a[0]).items; n = a[1].v
     if n == 0: raise Panic("window/chunk size must be non-zero")
+    if m.group(1) == "chunks_exact": return ListIt([Slot([VecV(it[i:i+n])], 0) for i in range(0, len(it) - n + 1, n)], False)
     if m.group(1) == "windows": return ListIt([Slot([VecV(it[i:i+n])], 0) for i in range(0, len(it) - n + 1)], False)
     return ListIt([Slot([VecV(it[i:i+n])], 0) for i in range(0, len(it), n)], False)
 @model(r"^(?:core|std)::slice::<impl \[.*\]>::(split_first)$")
